@@ -49,6 +49,12 @@ mask); a delivery to tbox's handler chains the saved handler and resets nothing:
 (b) the pipe is a ring of pages: a 4-byte write merges into the last page or takes a new slot, a slot is released only when
 wholly read, so with `head l` numbers of the first page already consumed only `capOf - head` fit (`hd`; back to 0 when the
 pipe runs empty).
+Round 6: (a) `pipe2` of `CreateFdPair` answered with an error (EMFILE / ENFILE) is an oracle: `enableP` = `enable()` with that answer.
+`pipe2` is called only by the first `subscribeSignal` of an `enable()` whose loop has no signal pipe (`needsPipe`); the call returns
+false before `all_signals_subscribers_[signo]`, the mutex, `sigprocmask` and `sigaction`: nothing changes.  (b) the flags / mask of
+tbox's OWN handler (`tboxDisp`: SA_SIGINFO only) are a model-internal observable (`M own=`), the application's saved / restored
+disposition stays property-level.  (c) `blockedCall`: what a thread blocked in a slow system call sees when g arrives — decided by
+SA_RESTART of the INSTALLED disposition (tbox's own has none: EINTR even where the saved disposition would have restarted).
 Not modelled (see props/C04/plugin.py ASSUMPTIONS): `SA_SIGINFO` combined with `SIG_IGN`; deliveries concurrent with a
 subscription change are modelled at step level in `Conc.lean`.
 -/
@@ -113,6 +119,7 @@ def sigValid (g : Nat) : Bool := g != 0 && g != 3 && decide (g < 7)
 inductive Act where
   | enable (j : Nat) | disable (j : Nat) | destroy (j : Nat)
   | init (j : Nat) (sigs : List Nat) (oneshot : Bool)
+  | enableP (j : Nat)      -- `enable()` with the kernel answering `pipe2` (if it is called) with EMFILE / ENFILE
 deriving Repr, DecidableEq
 
 /-- which of the three repairs are in the code -/
@@ -277,6 +284,17 @@ def enable (fx : Fixes) (s : State) (e : Nat) : State × Bool :=
   else
     (setEv s e { v with enabled := true, fired := if v.enabled then v.fired else 0 }, true)
 
+/-- `enable()` of event e reaches `pipe2`: the event is initialised with a non-empty set and its loop has no signal pipe
+(`signal_read_fd_ == -1` in the first `subscribeSignal`; a later one finds the pipe the first one made, or is not reached) -/
+def needsPipe (s : State) (e : Nat) : Bool :=
+  let v := s.evs e
+  v.alive && v.inited && !v.sigs.isEmpty && !s.hasPipe v.loop
+
+/-- `SignalEventImpl::enable` with the kernel answering `pipe2` with an error (EMFILE / ENFILE): `CreateFdPair` fails, `subscribeSignal`
+returns false before any bookkeeping, the roll-back loop of `enable()` breaks at the first signal -/
+def enableP (fx : Fixes) (s : State) (e : Nat) : State × Bool :=
+  if needsPipe s e then (s, false) else enable fx s e
+
 /-- `~SignalEventImpl` -/
 def destroy (s : State) (e : Nat) : State × Bool :=
   let v := s.evs e
@@ -313,6 +331,23 @@ def handlerEnv (s : State) (g : Nat) : Bool × Nat × Bool :=
   | .tbox => (true, 0, false)
   | _ => (!(s.os g).noDefer, (s.os g).mask, (s.os g).onStack)
 
+/-- what a thread blocked in a slow system call (a `read` on an empty pipe) sees when g is delivered to it -/
+inductive Blocked where
+  | killed        -- SIG_DFL: the default action ends the process
+  | undisturbed   -- SIG_IGN: the signal is discarded, the call sleeps on
+  | restarted     -- a handler with SA_RESTART: the kernel restarts the call after the handler
+  | eintr         -- a handler without SA_RESTART: the call fails with EINTR
+deriving DecidableEq, Repr
+
+/-- the kernel decides by the INSTALLED disposition: tbox's own handler (`tboxDisp`, flags 0) has no SA_RESTART, whatever the
+saved disposition says -/
+def blockedCall (s : State) (g : Nat) : Blocked :=
+  match (s.os g).kind with
+  | .dfl => .killed
+  | .ign => .undisturbed
+  | .tbox => .eintr          -- `new_handler.sa_flags = SA_SIGINFO`: no SA_RESTART
+  | .handler _ => if (s.os g).restart then .restarted else .eintr
+
 
 /-- delivery of signal g to the process; `wf` = the loops whose pipe write is answered with an error by the kernel
 (EAGAIN / EINTR / EIO ... — the handler does not look at the result) -/
@@ -344,6 +379,7 @@ def act (fx : Fixes) (s : State) (_l : Nat) : Act → State
   | .disable j => (disable s j).1
   | .destroy j => (destroy s j).1
   | .init j sg o => (initEv fx s j (dedup sg) o).1
+  | .enableP j => (enableP fx s j).1
 
 def runScript (fx : Fixes) (s : State) (l : Nat) : List Act → State
   | [] => s
@@ -435,6 +471,7 @@ inductive Op where
   | raiseW (g : Nat) (wf : List Nat)
   | passC (l : Nat) (ord : List Nat) (cs : List (Option Nat))
   | setCap (small : Bool)
+  | enableP (e : Nat)      -- `enable()`, `pipe2` (if called) answered with EMFILE / ENFILE
 deriving Repr, DecidableEq
 
 /-- the histories the property quantifies over: `initialize` is given a set; the user installs ordinary
@@ -461,6 +498,7 @@ def step (fx : Fixes) (s : State) : Op → State
   | .raiseW g wf => (raiseW s g wf).1
   | .passC l ord cs => passC fx s l ord cs
   | .setCap b => { s with small := b }
+  | .enableP e => (enableP fx s e).1
 
 def exec (fx : Fixes) (s : State) : List Op → Option State
   | [] => some s
